@@ -30,6 +30,7 @@ CONSTANTS Geometries,   \* set of <<w, h>>
           Chains,       \* set of filter chains (sequences of filter names)
           NameSets,     \* set of sequences of XObject names: the images exported in one run
           PreExisting,  \* set of sets of file names already in the directory
+          Spellings,    \* how the stream dictionary spells /Filter, /DecodeParms, /ColorSpace, /Width /Height /BitsPerComponent
           Envs,         \* the document the images sit in: "plain", or encrypted with "RC4" / "AESV2"
           DevChoices
 
@@ -39,8 +40,8 @@ VARIABLES imgs, dev, env, fs0,                       \* the case: image descript
 vars == <<imgs, dev, env, fs0, k, pc, fs, names, dec, nm, idx, file, pos, y, pal, files>>
 
 Init == /\ dev \in DevChoices /\ fs0 \in PreExisting /\ env \in Envs
-        /\ \E ns \in NameSets : \E f \in [1..Len(ns) -> (Geometries \X PixKinds \X Chains)] :
-              imgs = [q \in 1..Len(ns) |-> Img(ns[q], f[q][3], f[q][2], f[q][1])]
+        /\ \E ns \in NameSets : \E f \in [1..Len(ns) -> (Geometries \X PixKinds \X Chains \X Spellings)] :
+              imgs = [q \in 1..Len(ns) |-> ImgS(ns[q], f[q][3], f[q][2], f[q][1], f[q][4])]
         /\ k = 1 /\ pc = "decide" /\ fs = fs0 /\ names = <<>> /\ dec = "" /\ nm = "" /\ idx = 0
         /\ file = <<>> /\ pos = 0 /\ y = 0 /\ pal = 0 /\ files = <<>>
 
@@ -50,7 +51,7 @@ Cipher(e, b) == IF e = "plain" THEN b ELSE [q \in 1..Len(b) |-> (b[q] + (IF e = 
 
 ADecide == /\ pc = "decide" /\ k <= Len(imgs)
            /\ dec' = Decide(Cur, dev)
-           /\ pc' = IF dec' = "IndexError" THEN "error" ELSE "name"
+           /\ pc' = IF dec' \in {"IndexError", "TypeError"} THEN "error" ELSE "name"
            /\ UNCHANGED <<imgs, dev, env, fs0, k, fs, names, nm, idx, file, pos, y, pal, files>>
 
 \* ------------------------------------------------------------------ _create_unique_image_name
